@@ -192,11 +192,11 @@ class BoolProg:
         num = (int, float)
         if isinstance(ca, num) and isinstance(cb, num) and not isinstance(
                 ca, bool) and not isinstance(cb, bool):
-            try:
-                return ("c", bool(eval(  # noqa: S307 - two literals
-                    f"{ca!r} {_OPS[type(op)]} {cb!r}")))
-            except Exception:  # noqa: BLE001
-                pass
+            res = {ast.Lt: ca < cb, ast.LtE: ca <= cb, ast.Gt: ca > cb,
+                   ast.GtE: ca >= cb, ast.Eq: ca == cb,
+                   ast.NotEq: ca != cb}.get(type(op))
+            if res is not None:
+                return ("c", bool(res))
         if isinstance(op, (ast.Eq, ast.NotEq)) and (
                 isinstance(ca, str) or isinstance(cb, str)):
             if isinstance(ca, str) and isinstance(cb, str):
